@@ -33,6 +33,10 @@ claim("C05", "edge-cut guard of Commit by the dispatch result; who-may-call clos
       "Decides C05.1-C05.7: commit only below the no-errors edge with deferred abort; one transaction for everything below the dispatch loop (reads included); no effects that survive an abort except through tx.Defer (lock-delay timer listed); usage/events computed before, publish after, the memdb commit under commitLock; read-only path uses a read transaction; not-applied verbs become errors; every accepted verb has a handler. Library abort semantics are trusted.",
       "DESIGN.md section 3 C05")
 
+claim("C01", "registry agreement (registered handlers vs raftApply producers); VTA call-graph reachability from the registered handlers restricted to consul modules with boundary-call classification (pure / sanctioned sink / ambient) and local use check of every ambient result; provenance of WriteTxn indexes; order-sensitivity classification of every reachable map range; who-may-reach for goroutines/channel ops and the leader-local timers",
+      "Decides C01.1-C01.5: dispatch is total and single-valued; no ambient source (clock, env, network, randomness) reachable from apply feeds anything but metrics/logs/leader-local timers, and the leader-local lock-delay table is never read from apply; write transactions open at the handler's log index; no reachable map range leaks iteration order into state or results (7 reviewed exceptions); no goroutine/channel operation in apply. One known finding (F7: netutil.IsDualStack reached from virtual-IP assignment). Equality of two stores over histories is not decided.",
+      "DESIGN.md section 3 C01")
+
 NA_REASON = {}
 
 checks = []
